@@ -39,6 +39,10 @@ FontsPrec ==
   {[F0 EXCEPT !.kind = k, !.enc = eb[1], !.base = eb[2], !.tu = t] : k \in {"Type1", "Type3"}, eb \in EncPlain, t \in Tu3}
   \cup {[F0 EXCEPT !.enc = eb[1], !.base = eb[2], !.tu = t, !.tuform = tf] :
           eb \in {<<"absent", "">>, <<"name", "win">>}, t \in Tu3, tf \in TuForms \ {"bfchar"}}
+  \* t0: the EMPTY target (<41> <>, [<>]): an entry - the code has the empty text, the encoding is not consulted
+  \cup {[F0 EXCEPT !.kind = k, !.enc = eb[1], !.base = eb[2], !.tu = t, !.tuform = tf] :
+          k \in {"Type1", "Type3"}, eb \in {<<"absent", "">>, <<"name", "win">>, <<"name", "std">>},
+          t \in {<<"t0", "none", "none">>, <<"t1", "t0", "none">>, <<"none", "t0", "t2">>, <<"t0", "t0", "t0">>}, tf \in TuForms}
   \cup {[F0 EXCEPT !.kind = k, !.enc = eb[1], !.base = eb[2], !.tu = t, !.diff = d] :
           k \in PrecKinds, eb \in EncDict, t \in Tu3, d \in SeqsUpTo({I(2), N("gA"), N("gBad")}, 2)}
 
